@@ -29,6 +29,9 @@ CHECKS['C08'] = ('property-based testing: shipped recipes x generated graphs wit
 CHECKS['C10'] = ('property-based testing: regex alphabet built from the model\'s tensor names; calibration key set vs reference resolution; missing-statistics exceptions; per-operand mode oracle',
   'Generated single- and multi-signature models x rule sequences over the full regex alphabet (anchored, ";"-separated, prefixes, full names) x mostly static configs; every signature is calibrated in turn (resumed); the key set of the calibration result must equal the operand names of the ops the reference resolver selects under the quantization-side scope encoding, calibrate()/quantize() must not fail for missing statistics, and the ops quantized in the output must be exactly the selected ones (C03 oracle).',
   'Reference resolver uses the library\'s support predicate; skip_checks excluded.', 'DESIGN.md 4 C10')
+CHECKS['C05'] = ('property-based testing: independent storage-format decoder, element-wise half-step/one-step bound on every rewritten constant',
+  'Generated graphs over the constant-carrying ops with adversarial constant data (constant, one-sided, outliers, zeros, tiny, huge, tie grids, odd element counts) under every accepted weight/static/fp16 config; each rewritten constant of the output is length-checked, decoded (int4 low nibble first) and dequantized with its own stored parameters by code that shares nothing with the library, and compared element-wise with the float original (half a step symmetric / one step asymmetric; fp16 bit-exact; bias = round(bias/scale)).',
+  'Tolerance 1e-5 relative + float32 rounding; symmetry of a tensor\'s config is taken from the reference resolution.', 'DESIGN.md 4 C05')
 NOT_APPLICABLE = {}
 
 def main():
